@@ -103,7 +103,7 @@ func (g *Gen) ownLocs() []modLoc {
 // rootOf strips interior-address wrappers: (|sub|T|f| X) -> X ; returns array id for element addresses.
 func rootOf(addr string) (root string, isArr bool) {
 	for {
-		if strings.HasPrefix(addr, "(|sub|") {
+		if strings.HasPrefix(addr, "(|sub!") {
 			i := strings.Index(addr[1:], "| ")
 			if i < 0 {
 				return addr, false
@@ -111,7 +111,7 @@ func rootOf(addr string) (root string, isArr bool) {
 			addr = addr[i+3 : len(addr)-1]
 			continue
 		}
-		if strings.HasPrefix(addr, "(|ea|") {
+		if strings.HasPrefix(addr, "(|ea!") {
 			i := strings.Index(addr[1:], "| ")
 			rest := addr[i+3 : len(addr)-1]
 			// rest = "<arr> <idx>" ; arr is the first balanced term
@@ -150,7 +150,7 @@ func (g *Gen) freshAddr(addr string) string {
 	if isArr {
 		return "(>= " + r + " " + g.abrk(g.entry) + ")"
 	}
-	if strings.HasPrefix(r, "|G|") {
+	if strings.HasPrefix(r, "|G!") {
 		return "false"
 	}
 	return "(>= " + r + " " + g.brk(g.entry) + ")"
@@ -159,6 +159,9 @@ func (g *Gen) freshAddr(addr string) string {
 // allowedField: may the field array hname be written at address addr?
 func (g *Gen) allowedField(st *State, hname, addr string) string {
 	alts := []string{g.freshAddr(addr)}
+	if r, isArr := rootOf(addr); isArr {
+		alts = append(alts, g.allowedArr(st, r)) // an element of a struct slice: covered by contents(s)
+	}
 	for _, l := range g.ownLocs() {
 		switch l.kind {
 		case "field":
@@ -176,7 +179,7 @@ func (g *Gen) allowedField(st *State, hname, addr string) string {
 func (g *Gen) insideObject(addr, obj string) string {
 	alts := []string{eq(addr, obj)}
 	a := addr
-	for strings.HasPrefix(a, "(|sub|") {
+	for strings.HasPrefix(a, "(|sub!") {
 		i := strings.Index(a[1:], "| ")
 		if i < 0 {
 			break
@@ -221,6 +224,9 @@ func (g *Gen) frameCheckStore(st *State, p *Val, pos token.Pos, text string) {
 		t := deref(p.T)
 		if structOf(t) != nil {
 			alts := []string{g.freshAddr(p.S)}
+			if r, isArr := rootOf(p.S); isArr {
+				alts = append(alts, g.allowedArr(st, r))
+			}
 			for _, l := range g.ownLocs() {
 				if l.kind == "object" {
 					alts = append(alts, g.insideObject(p.S, l.addr))
